@@ -953,7 +953,9 @@ def binary(conf_mat):
     if H > 0 and H < 1 and F > 0 and F < 1:
         LOR = math.log(theta)
 
-    MCC = (TP*TN-FP*FN)/math.sqrt((TP+FP)*(TP+FN)*(TN+FP)*(TN+FN))
+    # Products of counts computed with floats to avoid integer overflow
+    MCC = (float(TP)*TN-float(FP)*FN)\
+        / math.sqrt(float(TP+FP)*(TP+FN)*(TN+FP)*(TN+FN))
 
     EDS = np.nan
     if TP > 0:
